@@ -157,10 +157,21 @@ def observe(case, seed):
         r = Reaction("R")
         r.gene_reaction_rule = text
         return pickle.loads(pickle.dumps(r)).gpr
+    def via_reaction_after_edit():
+        # an earlier copy of the same reaction had genes removed from ITS rule in place (what remove_genes does in the
+        # model that holds the copy); a later copy of the untouched original must still be the original's rule
+        r = Reaction("R")
+        r.gene_reaction_rule = text
+        first = pickle.loads(pickle.dumps(r))
+        _GeneRemover(set(gl[:1])).visit(first.gpr)
+        r.copy()
+        return pickle.loads(pickle.dumps(r)).gpr
     same(0, lambda: GPR.from_string(g.to_string()))
     same(1, lambda: g.copy())
     same(2, lambda: pickle.loads(pickle.dumps(g)))
     same(3, via_reaction)
+    if gl:
+        same(3, via_reaction_after_edit)
     if case.get("sym", True):
         same(4, lambda: GPR.from_symbolic(g.as_symbolic()))
 
